@@ -8,6 +8,7 @@ import re
 from ..cfg import CFG, ENTRY, always_raises
 from ..core import AnalysisError, FunctionInfo, calls_in, call_name, const_str, dotted, unparse, walk_no_nested
 from ..match import kwarg
+from ..match import canonical_statements
 from ..report import Ctx
 
 LEVEL = "other"
@@ -65,7 +66,7 @@ def r1_errors_carry_location(ctx: Ctx) -> None:
     ok = len(fi) == 1 and unparse(fi[0].value) == "_get_file_info(node)" and len(gen) == 1 and unparse(gen[0].args[0]) == "node" and unparse(gen[0].args[-1]) == "file_info"
     ctx.check(ok, "_code_gen:file_info", "each generator gets the token of the node it expands")
     gf = repo.func("a816.parse.codegen", "_get_file_info")
-    ctx.check([unparse(s) for s in gf.node.body] == [f"return {gf.params()[0]}.file_info"], "_get_file_info", "the node's own file_info")
+    ctx.check(canonical_statements(gf.node) == [f"return {gf.params()[0]}.file_info"], "_get_file_info", "the node's own file_info")
     an = repo.func("a816.parse.ast.nodes", "AstNode.__init__")
     ctx.check(any(unparse(s) == f"self.file_info = {an.params()[2]}" for s in an.node.body), "AstNode.__init__", "stores the token it was given")
     # failable statement nodes are built with the statement's first token
@@ -347,6 +348,8 @@ def _newline_free_lookahead(fn: FunctionInfo, restore: ast.Assign) -> bool:
                 if lit is None or (("\n" in lit) != bool(neg)):
                     return False
                 continue
+            if meth not in ("next", "backup", "scan"):
+                raise AnalysisError(f"{fn.where}: the look-ahead consumes through `{cn}`, a scanner helper without a summary; not decided")
             return False
     return True
 
